@@ -1,3 +1,4 @@
+import Hm.C18Req
 import Hm.C11Req
 import Hm.FuelMono
 import Hm.C15Fields
@@ -124,3 +125,5 @@ import Hm.Statements
 #print axioms C15_zlib_header
 #print axioms C11_request_reparse_partial
 #print axioms C11_request_reparse_rhymuri
+#print axioms C18_request_framing_case
+#print axioms C18_text_name_case
